@@ -116,7 +116,7 @@ psBool_t psPemCheckOk(const unsigned char *pemBuf,
     /* Check header and encryption parameters. */
     if (((start = pemFind((char *) pemBuf, bufEnd, "-----BEGIN")) != NULL) &&
             ((start = pemFind((char *) pemBuf, bufEnd, "PRIVATE KEY-----")) != NULL) &&
-            ((end = pemFind(start, bufEnd, "-----END")) != NULL) &&
+            ((end = pemFind(start + Strlen("PRIVATE KEY-----"), bufEnd, "-----END")) != NULL) &&
             (pemFind(end, bufEnd, "PRIVATE KEY-----") != NULL))
     {
         if (pemType != PEM_TYPE_KEY &&
@@ -133,7 +133,7 @@ psBool_t psPemCheckOk(const unsigned char *pemBuf,
     }
     else if (((start = pemFind((char *) pemBuf, bufEnd, "-----BEGIN")) != NULL) &&
             ((start = pemFind((char *) pemBuf, bufEnd, "PUBLIC KEY-----")) != NULL) &&
-            ((end = pemFind(start, bufEnd, "-----END")) != NULL) &&
+            ((end = pemFind(start + Strlen("PUBLIC KEY-----"), bufEnd, "-----END")) != NULL) &&
             (pemFind(end, bufEnd, "PUBLIC KEY-----") != NULL))
     {
         if (pemType != PEM_TYPE_PUBLIC_KEY &&
@@ -150,7 +150,7 @@ psBool_t psPemCheckOk(const unsigned char *pemBuf,
     }
     else if (((start = pemFind((char *) pemBuf, bufEnd, "-----BEGIN")) != NULL) &&
             ((start = pemFind((char *) pemBuf, bufEnd, "CERTIFICATE-----")) != NULL) &&
-            ((end = pemFind(start, bufEnd, "-----END")) != NULL) &&
+            ((end = pemFind(start + Strlen("CERTIFICATE-----"), bufEnd, "-----END")) != NULL) &&
             (pemFind(end, bufEnd, "CERTIFICATE-----") != NULL))
     {
         if (pemType != PEM_TYPE_CERTIFICATE &&
@@ -361,7 +361,7 @@ psRes_t psPemCertBufToList(psPool_t *pool,
         if (
             ((start = (unsigned char *) pemFind((char *) chFileBuf, bufEnd, "-----BEGIN")) != NULL) &&
             ((start = (unsigned char *) pemFind((char *) chFileBuf, bufEnd, "CERTIFICATE-----")) != NULL) &&
-            ((end = (unsigned char *) pemFind((char *) start, bufEnd, "-----END")) != NULL) &&
+            ((end = (unsigned char *) pemFind((char *) start + l, bufEnd, "-----END")) != NULL) &&
             ((endTmp = (unsigned char *) pemFind((char *) end, bufEnd, "CERTIFICATE-----")) != NULL)
             )
         {
